@@ -534,4 +534,12 @@
 #define __TBB_PREVIEW_TASK_GROUP_EXTENSIONS 1
 #endif
 
+#if ONETBB_VERIF_SIM
+// verification hook: reach counters for rare branches in header-only code
+extern "C" void sim_probe(const char* name);
+#define __TBB_VERIF_PROBE(name) sim_probe(name)
+#else
+#define __TBB_VERIF_PROBE(name) ((void)0)
+#endif
+
 #endif // __TBB_detail__config_H
